@@ -1,6 +1,7 @@
 package main
 
 import (
+	"runtime/pprof"
 	"flag"
 	"fmt"
 	"os"
@@ -61,6 +62,10 @@ func cmdRun(args []string) {
 	maporder := fs.Bool("maporder", false, "nondeterministic map order")
 	known := fs.String("known", "", "comma-separated active known-finding ids")
 	solverName := fs.String("solver", "z3", "z3|z3-new|cvc5")
+	preempt := fs.Int("preempt", 2, "preemption bound")
+	timeoutS := fs.Int("timeout", 120, "seconds")
+	maxPaths := fs.Int("maxpaths", 0, "max paths")
+	cpuprof := fs.String("cpuprofile", "", "write cpu profile")
 	smtlog := fs.String("smtlog", "", "log worker 0 queries")
 	params := paramFlags{}
 	fs.Var(params, "param", "k=v")
@@ -95,11 +100,16 @@ func cmdRun(args []string) {
 			ka[k] = true
 		}
 	}
-	ex := sym.NewExplorer(prog.Prog, sym.Config{Harness: fn, Params: params, Workers: *workers, Verbose: *verbose, UnwindCap: *unwind, Scheduler: *sched, MapOrderNondet: *maporder, KnownActive: ka, SolverName: *solverName, SmtLog: *smtlog})
+	ex := sym.NewExplorer(prog.Prog, sym.Config{Harness: fn, Params: params, Workers: *workers, Verbose: *verbose, UnwindCap: *unwind, Scheduler: *sched, MapOrderNondet: *maporder, KnownActive: ka, SolverName: *solverName, SmtLog: *smtlog, MaxPreempt: *preempt, MaxPaths: *maxPaths, Deadline: time.Now().Add(time.Duration(*timeoutS) * time.Second)})
+	if *cpuprof != "" {
+		f, _ := os.Create(*cpuprof)
+		pprof.StartCPUProfile(f)
+		defer pprof.StopCPUProfile()
+	}
 	t1 := time.Now()
 	ex.Run()
 	fmt.Printf("paths=%d outcomes=%v decisions=%d time=%v\n", ex.Paths, ex.Outcomes, ex.Decisions, time.Since(t1))
-	fmt.Printf("solver: queries=%d sat=%d unsat=%d unknown=%d errors=%d time=%v\n", ex.Stats.Queries, ex.Stats.Sat, ex.Stats.Unsat, ex.Stats.Unknown, ex.Stats.Errors, ex.Stats.Time)
+	fmt.Printf("solver: queries=%d sat=%d unsat=%d unknown=%d errors=%d time=%v cachehits=%d\n", ex.Stats.Queries, ex.Stats.Sat, ex.Stats.Unsat, ex.Stats.Unknown, ex.Stats.Errors, ex.Stats.Time, ex.CacheHits())
 	fmt.Printf("reached=%v\n", ex.Reached)
 	for _, s := range ex.Inconcl {
 		fmt.Println("INCONCLUSIVE:", s)
